@@ -39,6 +39,7 @@ func (m *Mutex) Lock() {
 			}
 		})
 		if ok {
+			vs.NoteAcquire(m)
 			return
 		}
 		vs.BlockOn(m, "Mutex.Lock(blocked)")
@@ -69,6 +70,7 @@ func (m *Mutex) Unlock() {
 	if !was {
 		panic("vsync: unlock of unlocked mutex")
 	}
+	vs.NoteRelease(m)
 	vs.WakeAll(m)
 }
 
@@ -93,6 +95,7 @@ func (m *RWMutex) Lock() {
 			}
 		})
 		if ok {
+			vs.NoteAcquire(m)
 			return
 		}
 		vs.BlockOn(m, "RWMutex.Lock(blocked)")
@@ -105,6 +108,7 @@ func (m *RWMutex) Unlock() {
 		return
 	}
 	vs.Locked(func() { m.writer = false })
+	vs.NoteRelease(m)
 	vs.WakeAll(m)
 }
 
@@ -123,6 +127,7 @@ func (m *RWMutex) RLock() {
 			}
 		})
 		if ok {
+			vs.NoteAcquire(m)
 			return
 		}
 		vs.BlockOn(m, "RWMutex.RLock(blocked)")
@@ -135,6 +140,7 @@ func (m *RWMutex) RUnlock() {
 		return
 	}
 	vs.Locked(func() { m.readers-- })
+	vs.NoteRelease(m)
 	vs.WakeAll(m)
 }
 
@@ -234,6 +240,6 @@ func (w *WaitGroup) Wait() {
 	}
 }
 
-func OnceFunc(f func()) func()                          { return sync.OnceFunc(f) }
-func OnceValue[T any](f func() T) func() T              { return sync.OnceValue(f) }
+func OnceFunc(f func()) func()                                 { return sync.OnceFunc(f) }
+func OnceValue[T any](f func() T) func() T                     { return sync.OnceValue(f) }
 func OnceValues[T1, T2 any](f func() (T1, T2)) func() (T1, T2) { return sync.OnceValues(f) }
